@@ -158,6 +158,30 @@ def build_design(s, shape, gated, enw=1, en_src='input', late=False):
         gate(boxes['inner'], 'gck2', e2, base=(box if shape == 'nested-chain' else None))
         q1 = s.wire('q1', w)
         Reg(s, 'r1', o, q1)
+    elif shape in ('leaf', 'leaf-in-gated'):
+        # the driver sits on the clockable leaf itself (reg.clockDriver = ...), not on a structural ancestor; in
+        # 'leaf-in-gated' the enclosing block is gated too and the leaf's own driver is derived from the block's
+        e1 = s.wire('en1', 1)
+        e2 = s.wire('en2', 1)
+        ins['en2'] = e2
+        if shape == 'leaf-in-gated':
+            ins['en1'] = e1
+        o = s.wire('o', w)
+        boxes = {}
+
+        def body(b):
+            m = b.wire('m', w)
+            Reg(b, 'g0', q0, m)
+            boxes['leaf'] = Reg(b, 'g1', m, o)
+        bins = {'q0': q0, 'en2': e2}
+        if shape == 'leaf-in-gated':
+            bins['en1'] = e1
+        box = D.Box(s, 'box', bins, {'o': o}, body)
+        if shape == 'leaf-in-gated':
+            gate(box, 'gck1', e1)
+        gate(boxes['leaf'], 'gck2', e2, base=(box if shape == 'leaf-in-gated' else None))
+        q1 = s.wire('q1', w)
+        Reg(s, 'r1', o, q1)
     elif shape.startswith('random#'):
         e = s.wire('en', enw)
         ins['en'] = e
@@ -355,7 +379,7 @@ def multi_task(p, cfg, rec):
 def cfgs(tier):
     quick = tier == 'quick'
     out = []
-    for shape in ('block', 'fsm', 'ancestor', 'nested', 'nested-chain', 'three', 'three-same-name'):
+    for shape in ('block', 'fsm', 'ancestor', 'nested', 'nested-chain', 'three', 'three-same-name', 'leaf', 'leaf-in-gated'):
         out.append(('%s enable=input' % shape, {'shape': shape, 'enw': 1, 'en_src': 'input'}))
     out.append(('block enable=2-bit input', {'shape': 'multibit', 'enw': 2, 'en_src': 'input'}))
     out.append(('block enable=register inside the gated domain', {'shape': 'inside', 'enw': 1, 'en_src': 'inside'}))
@@ -379,7 +403,7 @@ def multi_cfgs(tier):
     quick = tier == 'quick'
     out = []
     for n in ((2, 3) if quick else (2, 3, 4)):
-        for shape, enw, en_src in (('block', 1, 'comb'), ('block', 1, 'combbase'), ('block', 1, 'inside'), ('block', 1, 'input'),
+        for shape, enw, en_src in (('block', 1, 'comb'), ('block', 1, 'combbase'), ('block', 1, 'inside'), ('block', 1, 'input'), ('leaf', 1, 'input'),
                                    ('fsm', 2, 'comb'), ('nested', 1, 'input'), ('nested-chain', 1, 'input')):
             if quick and n == 3 and shape != 'block':
                 continue
